@@ -698,7 +698,13 @@ func fillHashHelper(r interface{}, depth int, env *Zlisp, preferSym bool) (Sexp,
 	// check for one of our registered structs
 
 	// go through the type registry upfront
-	for hashName, factory := range GoStructRegistry.Registry {
+	// (in registration order, not map order: a struct is registered under two
+	// names and the first match names the record)
+	for _, hashName := range ListRegisteredTypes {
+		factory := GoStructRegistry.Registry[hashName]
+		if factory == nil {
+			continue
+		}
 		//P("fillHashHelper is trying hashName='%s'", hashName)
 		st, err := factory.Factory(env, nil)
 		if err != nil {
